@@ -77,7 +77,10 @@ def load(dotted: str, rebind: dict | None = None, pre: dict | None = None) -> ty
     sys.modules[name] = m
     exec(compile(tree, path, "exec"), m.__dict__)
     if rebind:
-        m.__dict__.update(rebind)
+        for k, v in rebind.items():
+            if getattr(v, "__sx_only_if_scipy__", False) and not str(getattr(m.__dict__.get(k), "__module__", "")).startswith("scipy"):
+                continue
+            m.__dict__[k] = v
     m.__sx_source_hash__ = hashlib.sha256(src.encode()).hexdigest()[:16]
 
     def _reset(d=m.__dict__):
